@@ -54,7 +54,12 @@ def tlc_inputs(ctx):
                 raise vlib.MachineryError("aggregate generator failed: %s" % g.out[-2000:])
             out += g.vcases
         return out
-    d, g = vlib.pmap(lambda f: f(None), [design, gen], workers=2)
+    def scan(_):
+        r = L.tlc_cached(ctx, "Layout", "MC_Abi_scan.cfg", workers=2, timeout=1200)
+        if not r.ok:
+            raise vlib.MachineryError("scan-family enumeration failed: %s" % r.out[-2000:])
+        return r
+    d, g, sc = vlib.pmap(lambda f: f(None), [design, gen, scan], workers=3)
     ctx.cov["design"] = {"cfg": "MC_Abi_mc_%s.cfg" % tier, "distinct": d.distinct, "generated": d.states, "wall_s": round(d.wall, 1)}
     terms = [json.loads(v) for v in dict.fromkeys(g)]
     # cproc cannot describe long double at all (qbetype() is fatal) and flexible structs are not passed by value here
@@ -62,6 +67,10 @@ def tlc_inputs(ctx):
             and not contains(t, lambda x: x["k"] == "arr" and x["n"] == 0)]
     ctx.cov["aggregates_generated"] = len(terms)
     ctx.cov["aggregates_usable"] = len(pool)
+    # every struct of <= 3 members over {char, int, char[3], bit-fields char:3 short:3 int:3 long:3 long:33}: emittype's unit scan
+    fam = [json.loads(v) for v in sc.vcases]
+    ctx.cov["scan_family"] = len(fam)
+    pool += fam
     inp = ctx.path("abi_in.ndjson")
     with open(inp, "w") as f:
         for t in pool:
@@ -77,6 +86,11 @@ def tlc_inputs(ctx):
     if len(sigs) > lim:
         ctx.rng.shuffle(sigs)
         sigs = sigs[:lim]
+    # plus `A f(A)` for every aggregate (TLC "ident" mode), so that each is described on every target
+    idn = L.tlc_cached(ctx, "Abi", "MC_Abi_ident.cfg", workers=4, env={"ABI_IN": inp}, timeout=1200)
+    if not idn.ok or len(idn.vcases) != len(pool):
+        raise vlib.MachineryError("ident run failed: %s" % idn.out[-2000:])
+    sigs += [json.loads(v) for v in idn.vcases]
     return pool, sigs
 
 
@@ -247,6 +261,16 @@ def judge_sig(ctx, target, k, s, funcs, src, stats):
 def judge_descriptors(ctx, pool, descrs, valist_t):
     pool = pool + [valist_t]          # index 0 (= -1 + 1 from the end) is the aarch64 va_list
     recs = [{"i": i, "tg": tg, "t": pool[i - 1] if i else valist_t, "q": q} for (i, tg), q in sorted(descrs.items())]
+    # self-test of the judge (negative indices): fabricated descriptors for struct { float; float; }
+    sc = lambda n: {"t": {"k": "sc", "n": n}, "nm": True, "w": -1, "al": 0}
+    ff = {"k": "su", "un": False, "pk": False, "ms": [sc("float"), sc("float")]}
+    fab = [(-1, {"k": "struct", "alts": [[{"c": "s", "n": 2}]]}, True),                       # different spelling, same ABI
+           (-2, {"k": "struct", "alts": [[{"c": "s", "n": 1}, {"c": "s", "n": 1}]]}, True),
+           (-3, {"k": "struct", "alts": [[{"c": "w", "n": 2}]]}, False),                      # register class changed
+           (-4, {"k": "struct", "alts": [[{"c": "s", "n": 1}]]}, False),                      # a field lost
+           (-5, {"k": "union", "alts": [[{"c": "s", "n": 1}], [{"c": "s", "n": 1}]]}, False)]
+    for i, q, _ in fab:
+        recs += [{"i": i, "tg": tg, "t": ff, "q": q} for tg in vlib.TARGETS]
     inp = ctx.path("abi_judge.ndjson")
     with open(inp, "w") as f:
         for r in recs:
@@ -255,7 +279,13 @@ def judge_descriptors(ctx, pool, descrs, valist_t):
     verd = [json.loads(v) for v in r.vcases]
     if len(verd) != len(recs):
         raise vlib.MachineryError("judge run returned %d of %d verdicts" % (len(verd), len(recs)))
+    ctx.cov["judge_selftest"] = "5 fabricated descriptors x 3 targets: 2 equivalent spellings accepted, 3 ABI-changing ones rejected"
     hist = collections.Counter()
+    want = {i: w for i, _, w in fab}
+    bad = [v for v in verd if v["i"] < 0 and v["equiv"] != want[v["i"]]]
+    if bad or sum(1 for v in verd if v["i"] < 0) != 3 * len(fab):
+        raise vlib.MachineryError("judge self-test failed: %s" % bad[:3])
+    verd = [v for v in verd if v["i"] >= 0]
     for v in verd:
         ctx.count("descr%s%d" % (v["tg"], v["i"]), nontrivial=True)
         cl = sorted(v["classes"])
